@@ -39,11 +39,46 @@ def walk (limit : Nat) (fuel : Nat) (bs : Bytes) : List (UInt8 × Bytes) × Bool
     else ([], false)
   | _, _ => ([], false)
 
+
+/-! ### limits as configured on `server::Grpc` / `client::Grpc` (the configuration is handed to
+the codec unchanged; the model is the framing model's own limit decisions) -/
+
+def idCodec : Codec Bytes := { ser := id, de := some, deErr := 13, cz := fun _ b => b, dz := fun _ b => some b }
+
+/-- does the encoder model refuse a message of `n` bytes under limit `e`? -/
+def encRefuses (e : Option Nat) (n : Nat) : Bool :=
+  (encodeErr idCodec { comp := none, yieldThr := 0, maxSize := e, server := true } (List.replicate n 1)).isSome
+
+/-- does the decoder model refuse a declared length `n` under limit `d`? -/
+def decRefuses (d : Option Nat) (n : Nat) : Bool :=
+  decide (n > ({ enc := none, maxSize := d, dir := .request } : DecCfg).limit)
+
+def handleLim (case obs : List String) : String × String :=
+  match case with
+  | [side, _mode, e, d, rq, rs] =>
+    match optNat? (if e = "-" then "none" else e), optNat? (if d = "-" then "none" else d), nat? rq, nat? rs with
+    | some e, some d, some rq, some rs =>
+      if side = "lim.srv" then
+        let model := if decRefuses d rq then "11 h0" else if encRefuses e rs then "11 h1" else "0 h1"
+        -- spec, stated directly: received iff within the decoding limit (4 MiB default); sent iff within the encoding limit
+        let dl := d.getD (4 * 1024 * 1024)
+        let expected := if rq > dl then "11 h0" else if (match e with | some l => decide (rs > l) | none => false) then "11 h1" else "0 h1"
+        (model, verdict [("limits-enforced-as-configured", String.intercalate " " obs == expected)])
+      else
+        let model := if encRefuses e rq then "err11 s0" else if decRefuses d rs then "err11 s1" else "ok s1"
+        let dl := d.getD (4 * 1024 * 1024)
+        let expected := if (match e with | some l => decide (rq > l) | none => false) then "err11 s0"
+                        else if rs > dl then "err11 s1" else "ok s1"
+        (model, verdict [("limits-enforced-as-configured", String.intercalate " " obs == expected)])
+    | _, _, _, _ => bad
+  | _ => bad
+
 /-- C06 verdict.  enc: every message before the first oversized one / source error is delivered,
 in order, ahead of the status, whose code is OUT_OF_RANGE for an oversized message; nothing of
 the oversized message is sent.  dec: frames are accepted iff payload length ≤ limit; the first
 oversized one yields OUT_OF_RANGE (even when only its 5-byte prefix has arrived). -/
 def handle (case obs : List String) : String × String :=
+  if case.head? = some "lim.srv" ∨ case.head? = some "lim.cli" then handleLim case obs else
   match model case with
   | none => bad
   | some m =>
